@@ -119,6 +119,14 @@ theorem hash_eq_nl_anti (lk rk : List (Row → Val)) (nL : Nat) (Ls Rs : List Ch
       flat (nlSemiJoin true (equiOn nL lk rk (fun _ => some true)) Ls Rs) := by
   rw [hash_anti_eq_spec_partial lk rk nL Ls Rs hlen hk, nl_eq_spec_anti _ nL 0]; rfl
 
+/-- RIGHT OUTER: there is no nested-loop executor to compare with (`todo!()`), the statement is
+against the spec's right outer join. -/
+theorem hash_eq_spec_right_outer (lk rk : List (Row → Val)) (nL nR : Nat) (Ls Rs : List Chunk)
+    (hlen : ∀ l ∈ flat Ls, l.length = nL) (hk : KeysComparable lk rk (flat Ls) (flat Rs)) :
+    (flat (hashJoin .rightOuter lk rk nL nR Ls Rs)).Perm
+      (joinRel .rightOuter (equiOn nL lk rk (fun _ => some true)) nL nR (flat Ls) (flat Rs)) :=
+  hash_eq_spec_right_outer_partial lk rk nL nR Ls Rs hlen hk
+
 /-- without any hypothesis: the inner hash join returns the pairs whose key vectors are
 STRUCTURALLY equal (`DataValue`'s derived `Eq`), for every chunking of both inputs. -/
 theorem hashjoin_inner_structural (lk rk : List (Row → Val)) (nL nR : Nat) (Ls Rs : List Chunk) :
